@@ -529,6 +529,53 @@ func c01run(c *Ctx) {
 	for _, cl := range ctlLists {
 		emit(&codec.Req{Op: "add", MsgID: 5, DN: "cn=a", Attrs2: []codec.Attr{{Type: "mail", Vals: []string{"v"}}}, Controls: cl})
 	}
+	if th {
+		// thorough: the full product of limits x filters x attribute lists for every scope and alias setting
+		for scope := int64(0); scope < 3; scope++ {
+			for deref := int64(0); deref < 4; deref++ {
+				for _, l := range lims {
+					for _, f := range c01filters {
+						for _, al := range attrLists {
+							emit(&codec.Req{Op: "search", MsgID: 70000, DN: "ou=x,dc=a", Scope: scope, Deref: deref, Size: l.s, Time: l.t, TypesOnly: (l.s+l.t)%2 == 1, Filter: f, Attrs: al})
+						}
+					}
+				}
+			}
+		}
+		// three attributes / three changes
+		for i, a := range attrs {
+			for j, b := range attrs {
+				for k, d := range attrs {
+					if (i+j+k)%2 == 0 {
+						emit(&codec.Req{Op: "add", MsgID: 5, DN: "cn=a", Attrs2: []codec.Attr{a, b, d}})
+					}
+				}
+			}
+		}
+		for i, a := range changes {
+			for j, b := range changes {
+				if (i+j)%3 != 0 {
+					continue
+				}
+				for k, d := range changes {
+					if (i+k)%4 == 0 {
+						emit(&codec.Req{Op: "modify", MsgID: 4, DN: "cn=a", Changes: []codec.Change{a, b, d}})
+					}
+				}
+			}
+		}
+		// ordered control pairs over the full alphabet on every envelope that exposes controls
+		for _, a := range ctls {
+			for _, b := range ctls {
+				cl := []codec.Control{a, b}
+				emit(&codec.Req{Op: "bind", MsgID: 77, Version: 3, DN: "cn=a", Password: "p", Controls: cl})
+				emit(&codec.Req{Op: "search", MsgID: 3, DN: "dc=a", Scope: 1, Deref: 3, Size: 10, Time: 20, Filter: "(cn=*)", Controls: cl})
+				emit(&codec.Req{Op: "modify", MsgID: 4, DN: "cn=a", Changes: []codec.Change{{Op: 2, Type: "mail", Vals: []string{"v"}}}, Controls: cl})
+				emit(&codec.Req{Op: "add", MsgID: 5, DN: "cn=a", Attrs2: []codec.Attr{{Type: "mail", Vals: []string{"v"}}}, Controls: cl})
+				emit(&codec.Req{Op: "delete", MsgID: 6, DN: "cn=a", Controls: cl})
+			}
+		}
+	}
 	// ---- delete
 	for _, id := range intAlpha {
 		for _, dn := range S {
